@@ -60,6 +60,50 @@ grab("src_merge_default_fd_limit", "fst-bin/src/merge.rs", r"fd_limit: " + NUM +
 grab("src_merge_default_batch_size", "fst-bin/src/merge.rs", r"batch_size: " + NUM + ",")
 
 
+# node.rs: state bytes, masks, shifts; bytes.rs: pack_size thresholds
+grab("src_state_otn", "src/raw/node.rs", r"fn new\(\) -> StateOneTransNext \{\s*StateOneTransNext\(" + NUM + r"\)")
+grab("src_state_ot", "src/raw/node.rs", r"fn new\(\) -> StateOneTrans \{\s*StateOneTrans\(" + NUM + r"\)")
+grab("src_state_any", "src/raw/node.rs", r"fn new\(\) -> StateAnyTrans \{\s*StateAnyTrans\(" + NUM + r"\)")
+grab("src_state_kind_mask", "src/raw/node.rs", r"match \(v & " + NUM + r"\) >> " + NUM + r" \{", group=1)
+grab("src_state_kind_shift", "src/raw/node.rs", r"match \(v & " + NUM + r"\) >> " + NUM + r" \{", group=2)
+grab("src_state_kind_otn", "src/raw/node.rs", NUM + r" => State::OneTransNext\(")
+grab("src_state_kind_ot", "src/raw/node.rs", NUM + r" => State::OneTrans\(")
+grab("src_any_final_flag", "src/raw/node.rs", r"fn set_final_state\(&mut self, yes: bool\) \{\s*if yes \{\s*self\.0 \|= " + NUM + ";")
+grab("src_any_ntrans_max_inline", "src/raw/node.rs", r"fn set_state_ntrans\(&mut self, n: u8\) \{\s*if n <= " + NUM + r" \{")
+grab("src_any_ntrans_mask", "src/raw/node.rs", r"fn state_ntrans\(&self\) -> Option<u8> \{\s*let n = self\.0 & " + NUM + ";")
+grab("src_otn_common_max", "src/raw/node.rs", r"self\.0 = \(self\.0 & 0b11_000000\) \| common_idx\(input, " + NUM + r"\);")
+grab("src_ot_common_max", "src/raw/node.rs", r"self\.0 = \(self\.0 & 0b10_000000\) \| common_idx\(input, " + NUM + r"\);")
+grab("src_common_input_mask", "src/raw/node.rs", r"fn common_input\(&self\) -> Option<u8> \{\s*common_input\(self\.0 & " + NUM + r"\)")
+grab("src_packsizes_tshift", "src/raw/node.rs", r"self\.0 = \(self\.0 & 0b0000_1111\) \| \(size << " + NUM + r"\);")
+grab("src_packsizes_tmask", "src/raw/node.rs", r"\(\(self\.0 & " + NUM + r"\) >> 4\) as usize")
+grab("src_packsizes_omask", "src/raw/node.rs", r"fn output_pack_size\(&self\) -> usize \{\s*\(self\.0 & " + NUM + r"\) as usize")
+grab("src_index_absent", "src/raw/node.rs", r"let mut index = \[" + NUM + r"; 256\];")
+grab("src_index_len", "src/raw/node.rs", r"let mut index = \[255u8; " + NUM + r"\];")
+grab("src_ntrans_256_marker", "src/raw/node.rs", r"if node\.trans\.len\(\) == 256 \{[^}]*?wtr\.write_all\(&\[" + NUM + r"\]\)\?;")
+grab("src_max_trans", "src/raw/node.rs", r"assert!\(node\.trans\.len\(\) <= " + NUM + r"\);")
+grab("src_version_index_min", "src/raw/node.rs", r"if version >= " + NUM + r" && ntrans > TRANS_INDEX_THRESHOLD")
+grab("src_checksum_version_max_without", "src/raw/mod.rs", r"let \(end, checksum\) = if version <= " + NUM + r" \{")
+grab("src_open_min_len", "src/raw/mod.rs", r"let bytes = data\.as_ref\(\);\s*if bytes\.len\(\) < " + NUM + r" \{")
+grab("src_open_min_len_v3", "src/raw/mod.rs", r"if version >= 3 && bytes\.len\(\) < " + NUM + r" \{")
+
+
+def shifts(name, path, rx):
+    try:
+        m = re.search(rx, read(path), re.S)
+    except OSError:
+        m = None
+    if not m:
+        missing.append("%s (%s)" % (name, path))
+        return
+    vals = [int(x) for x in re.findall(r"n < 1 << (\d+)", m.group(0))]
+    rets = [int(x) for x in re.findall(r"\{\s*(\d+)\s*\}", m.group(0))]
+    items.append((name + "_shifts", vals))
+    items.append((name + "_results", rets))
+
+
+shifts("src_pack_size", "src/bytes.rs", r"pub fn pack_size\(n: u64\) -> u8 \{.*?\n\}")
+
+
 def table(name, path, rx):
     try:
         m = re.search(rx, read(path), re.S)
